@@ -54,7 +54,10 @@ impl<C: Codec + 'static> Acct for StringRegion<CodecRegion<C>> {
         0
     }
 }
-impl<C: Codec + 'static> Acct for CodecRegion<C> {
+impl<C: Codec + 'static, R> Acct for CodecRegion<C, R>
+where
+    for<'a> R: Region<ReadItem<'a> = &'a [u8]> + 'a,
+{
     fn lb(_vals: &[&Vec<u8>]) -> usize {
         0
     }
